@@ -17,6 +17,9 @@ Suites
                   adding / repeating records; no reference, missing reference, directory
   LINT-lint       L10nLinter().lint over small projects incl. files without a parser, with
                   default / mirror_reference_and_tests / l10n_base_reference_and_tests
+  LINT-inc-sequence  several .inc files in one process (one lint() call in varying order, or
+                  lint_file calls one after the other, references included) where some leave
+                  `#filter emptyLines` on: each file's results expected from its own text only
 The model is fed the implementation's own parse (keys, junk flags, classes, spans),
 Entity.equals for every (file entity, reference entity) pair and the real checker's
 results for (e, e); its findings are rendered to the message texts and compared with the
@@ -1086,6 +1089,176 @@ def suite_lint(chk, model, tmp):
         chk.correspond("LINT-lint", cases, impl, outs)
 
 
+# ------------------------------------------------ .inc files in sequence ---
+def gen_inc(rng, unclosed=None, ref_of=None):
+    """an .inc file as lines, each followed by 1 + b newlines (b blank lines):
+    #define lines, `#filter emptyLines` / `#unfilter emptyLines`.  -> (text, lines)
+    lines: [(kind, key, val, b)].  unclosed: force / forbid a filter left open."""
+    lines = []
+    if ref_of is None:
+        keys = rng.sample(KEYS, rng.randint(2, 5))
+        if rng.random() < 0.3:
+            keys.append(rng.choice(keys))
+        defs = [(k, "v%d" % rng.randint(0, 4)) for k in keys]
+    else:
+        defs = [(k, v if rng.random() < 0.6 else "r%d" % rng.randint(0, 3))
+                for kind, k, v, _ in ref_of if kind == "def" and rng.random() < 0.8]
+    mode = rng.choice(["none", "none", "closed", "open"]) if unclosed is None else \
+        ("open" if unclosed else rng.choice(["none", "closed"]))
+    n = len(defs)
+    at_on = rng.randint(0, n) if mode != "none" else None
+    at_off = rng.randint(at_on, n) if mode == "closed" else None
+
+    def blanks():
+        return rng.choice([0, 0, 1, 1, 2, 3])
+    for i in range(n + 1):
+        if at_on == i:
+            lines.append(("on", None, None, blanks()))
+        if at_off == i:
+            lines.append(("off", None, None, blanks()))
+        if i < n:
+            lines.append(("def", defs[i][0], defs[i][1], blanks()))
+    lead = rng.choice([0, 0, 0, 0, 1, 2])
+    text = "\n" * lead
+    for kind, k, v, b in lines:
+        text += {"on": "#filter emptyLines", "off": "#unfilter emptyLines",
+                 "def": "#define %s %s" % (k, v)}[kind] + "\n" * (1 + b)
+    return text, lines, lead
+
+
+def expected_inc(text, lines, lead, ref_lines):
+    """expected results of one .inc file from ITS OWN text only: a run of two or more newlines
+    is unparsed content unless the file's own `#filter emptyLines` is on at that point; leading
+    newlines always are"""
+    out = []
+    count = {}
+    for kind, k, v, b in lines:
+        if kind == "def":
+            count[k] = count.get(k, 0) + 1
+    last_ref = {}
+    for kind, k, v, b in ref_lines or []:
+        if kind == "def":
+            last_ref[k] = v
+
+    def junk(start, n):
+        l, c = linecol(text, start)
+        l2, c2 = linecol(text, start + n)
+        return (l, c, "error", 'Unparsed content "%s" from line %d column %d to line %d column %d'
+                % ("\n" * n, l, c, l2, c2))
+    pos = 0
+    if lead:
+        out.append(junk(0, lead))
+        pos = lead
+    filtering = False
+    for kind, k, v, b in lines:
+        body = {"on": "#filter emptyLines", "off": "#unfilter emptyLines",
+                "def": "#define %s %s" % (k, v)}[kind]
+        if kind == "on":
+            filtering = True
+        elif kind == "off":
+            filtering = False
+        else:
+            l, c = linecol(text, pos)
+            if count[k] > 1:
+                out.append((l, c, "error", "Duplicate string with ID: " + k))
+            if k in last_ref and last_ref[k] != v:
+                out.append((l, c, "warning", "Changes to string require a new ID: " + k))
+        if b >= 1 and not filtering:
+            out.append(junk(pos + len(body), 1 + b))
+        pos += len(body) + 1 + b
+    return out
+
+
+def suite_inc_sequence(chk, model, tmp):
+    """several .inc files in one process: a `#filter emptyLines` left open in one file (linted
+    earlier in the same lint() call, or used as the reference) must not change what is
+    unparsed content in another"""
+    from compare_locales.lint.linter import L10nLinter
+    rng = chk.rng
+    cases, impl, reqs, wires = [], [], [], []
+    for i in range(chk.n(400, 4000)):
+        root = os.path.join(tmp, "s%d" % i)
+        nfiles = rng.randint(2, 4)
+        descr = []
+        for j in range(nfiles):
+            # at least one file leaves the filter on and at least one has none
+            text, lines, lead = gen_inc(rng, unclosed=True if j == 0 else False if j == 1 else None)
+            path = os.path.join(root, "f%d" % j, rng.choice(["defines.inc", "a.inc"]))
+            write_file(path, text, rng)
+            ref_path = ref_lines = ref_text = None
+            if rng.random() < 0.5:
+                ref_text, ref_lines, _ = gen_inc(rng, unclosed=rng.random() < 0.6, ref_of=lines)
+                ref_path = os.path.join(root, "ref%d" % j, os.path.basename(path))
+                write_file(ref_path, ref_text, rng)
+            descr.append({"fmt": "inc", "path": path, "ref": ref_path, "text": text,
+                          "ref_text": ref_text, "mode": "file" if ref_path else "none",
+                          "extra": None,
+                          "expected": expected_inc(text, lines, lead, ref_lines)})
+        order = list(descr)
+        rng.shuffle(order)
+        refs = {d["path"]: d["ref"] for d in descr}
+        if rng.random() < 0.5:
+            # one lint() call over all files
+            files = [d["path"] for d in order]
+            getref = (lambda p, refs=refs: (refs.get(p), None))
+            got = run_impl(lambda: impl_dicts(L10nLinter().lint(iter(files), getref)))
+            gots = [(d, got) for d in order]
+            kind = "lint"
+        else:
+            # lint_file one after the other in the same process
+            gots = [(d, run_impl(lambda d=d: impl_dicts(L10nLinter().lint_file(d["path"], d["ref"], None))))
+                    for d in order]
+            kind = "lint_file"
+        for d, got in gots:
+            if got[0] != 0:
+                chk.fail("lint-raises", describe(d), {"got": got})
+                continue
+            rows = [r for r in got[1] if r[0] == d["path"]]
+            if not matches_expected(rows, d["expected"]):
+                chk.fail("lint-inc-sequence",
+                         {"call": kind, "order": [os.path.relpath(x["path"], root) for x in order],
+                          "file": os.path.relpath(d["path"], root),
+                          "texts": {os.path.relpath(x["path"], root): [x["text"], x["ref_text"]]
+                                    for x in order}},
+                         {"got": [r[1:] for r in rows], "expected": [list(e) for e in d["expected"]]})
+        # the model on the same calls
+        if kind == "lint":
+            w = Wire()
+            env = [[], [], [], [], []]
+            table = []
+            for d in order:
+                parses, isf, eqs, chk_entry, results = parse_for_model(w, d["path"], d["ref"], None)
+                env[0] += parses
+                env[1] += isf
+                env[2] += eqs
+                env[3].append(chk_entry)
+                env[4] += results
+                table.append([canon(d["path"]), opt(d["ref"], canon), []])
+            reqs.append((2, [env, [canon(d["path"]) for d in order], table]))
+            cases.append({"call": kind, "texts": [[d["text"], d["ref_text"]] for d in order]})
+            impl.append(gots[0][1])
+            wires.append(w)
+        else:
+            for d, got in gots:
+                w = Wire()
+                parses, isf, eqs, chk_entry, results = parse_for_model(w, d["path"], d["ref"], None)
+                reqs.append((1, [[parses, isf, eqs, [chk_entry], results], canon(d["path"]),
+                                 opt(d["ref"], canon), []]))
+                cases.append({"call": kind, "text": d["text"], "ref_text": d["ref_text"]})
+                impl.append(got)
+                wires.append(w)
+        chk.count(("incseq", kind, [(d["text"], d["ref_text"]) for d in order]))
+        chk.hist("inc_sequence_call", kind)
+        if i == 2:
+            chk.sample({"suite": "LINT-inc-sequence", "call": kind,
+                        "texts": [[d["text"], d["ref_text"]] for d in order], "impl": gots[-1][1]})
+        shutil.rmtree(root, ignore_errors=True)
+    if model:
+        outs = model.call(reqs, chunk=300)
+        outs = [w.decode(o, True) for w, o in zip(wires, outs)]
+        chk.correspond("LINT-inc-sequence", cases, impl, outs)
+
+
 FMT_BY_NAME = {f.name: f for f in FORMATS}
 
 
@@ -1109,7 +1282,8 @@ def run(chk, runner_ok):
     try:
         for suite, args in ((suite_hasparser, ()), (suite_position, ()), (suite_entity_small, ()),
                             (suite_entity, ()),
-                            (suite_file, (tmp,)), (suite_lint, (tmp,))):
+                            (suite_file, (tmp,)), (suite_lint, (tmp,)),
+                            (suite_inc_sequence, (tmp,))):
             try:
                 suite(chk, model, *args)
             except Exception:  # noqa: a suite that cannot run is a failed check, not a crash
